@@ -160,16 +160,19 @@ def make_function(case, seen, token):
     sig = case['sig']
     parts = []
     star = False
+    varpos = sig.get('varpos')
     ns = {'SEEN': seen, 'TOKEN': token}
     for i, sp in enumerate(sig['params']):
         if sp['kwonly'] and not star:
-            parts.append('*')
+            parts.append('*args' if varpos else '*')
             star = True
         s = pname(sp['n'])
         if sp['default'] is not None:
             ns['D%d' % i] = dec(sp['default'])
             s += '=D%d' % i
         parts.append(s)
+    if varpos and not star:
+        parts.append('*args')
     if sig['varkw']:
         parts.append('**kw')
     src = '%sdef f(%s):\n    SEEN.append(dict(locals()))\n    return TOKEN\n' % ('async ' if case['async'] else '', ', '.join(parts))
@@ -246,6 +249,8 @@ def perform(case, target, pdescs, journal, seen, token):
     if seen:
         b = dict(seen[0])
         kw = b.pop('kw', {}) if case['sig']['varkw'] else {}
+        if case['sig'].get('varpos'):
+            res['star'] = [enc(v) for v in b.pop('args', ())]
         b.update(kw)
         res['binding'] = sorted([ncode(k), enc(v)] for k, v in b.items())
         if res['final'][0] == 'raise':
